@@ -258,6 +258,16 @@ def guards_and_closure(prog, chk):
         for (tpl, line) in styles + defs:
             if tpl:
                 refs += [(m, line) for m in re.findall(r"url\(#([^)\s]+)\)", tpl)]
+        # rules that reach add_style by another route (a table of (class, rule) rows handed to a helper): every
+        # string literal of the function that spells a reference counts as one
+        seen_refs = {m for m, _l in refs}
+        for n in hirq.exprs(h["body"], "Lit"):
+            txt = hirq.lit_str(n)
+            if isinstance(txt, str):
+                for m in re.findall(r"url\(#([^)\s{}]+)\)", txt):
+                    if m not in seen_refs:
+                        seen_refs.add(m)
+                        refs.append((m, n.get("line")))
         ids = []
         for (tpl, line) in defs:
             if tpl:
@@ -295,7 +305,11 @@ def guards_and_closure(prog, chk):
         if hirq.field_chain(iff["cond"]) == ["has_arrow"]:
             flag_guard = any(n["name"] == "add_defs" for n in hirq.exprs(iff["then"], "MethodCall"))
     outside = [n for n in hirq.exprs(h["body"], "MethodCall") if n["name"] == "add_defs"]
-    chk.ob(sets >= 2 and flag_guard and len(outside) == 1, "A16.url-id-closure", "append_arrow_styles:flag", aa.where(), "every arm that emits a rule referencing the arrow marker sets the flag under which the marker is defined (defined iff referenced)", "the arrow marker definition is not tied to the arms that reference it")
+    if sets == 0 and flag_guard and len(outside) == 1:
+        # the marker is defined under the flag, but the arms that set it are not written as `if has_class(..) { add_style(..url(#d-arrow)..); flag = true }`
+        chk.undecided("A16.url-id-closure", "append_arrow_styles:flag", aa.where(), "the arrow marker is defined under a flag, but how the arms that reference the marker set that flag is not written in the form this rule reads")
+    else:
+        chk.ob(sets >= 2 and flag_guard and len(outside) == 1, "A16.url-id-closure", "append_arrow_styles:flag", aa.where(), "every arm that emits a rule referencing the arrow marker sets the flag under which the marker is defined (defined iff referenced)", "the arrow marker definition is not tied to the arms that reference it")
     # pattern / shadow builders are only invoked under the guard of their class
     tb = prog.body("svgdx::themes::Theme::build")
     hb = prog.hir[tb.id]
